@@ -148,5 +148,5 @@ fn g4_body<const N: usize>(table: &[RawTokenType]) {
     cover!(lines.len() >= 2, "at_least_two_lines");
     std::mem::forget(lines);
 }
-harness! { fn c14_g4_parser_pass_1token() unwind(6) stubs(log::max_level => crate::common::stub_log_max_level_off) { g4_body::<2>(&PARSE_KINDS) } }
-harness! { fn c14_g4_parser_pass_2tokens() unwind(6) stubs(log::max_level => crate::common::stub_log_max_level_off) { g4_body::<3>(&PARSE_KINDS) } }
+harness! { fn c14_g4_parser_pass_1token() unwind(5) stubs(log::max_level => crate::common::stub_log_max_level_off, std::collections::HashSet::insert => crate::common::stub_hashset_insert) { g4_body::<2>(&PARSE_KINDS) } }
+harness! { fn c14_g4_parser_pass_2tokens() unwind(5) stubs(log::max_level => crate::common::stub_log_max_level_off, std::collections::HashSet::insert => crate::common::stub_hashset_insert) { g4_body::<3>(&PARSE_KINDS) } }
